@@ -164,6 +164,9 @@ function export.parent(frame)
   return "<<" .. q(p:getTitle()) .. "|" .. dump(p.args) .. ">>"
 end
 function export.title(frame) return "<<" .. q(frame:getTitle()) .. ">>" end
+function export.pre_parent(frame) return frame:preprocess("{{#invoke:echo|parent}}") end
+function export.first_arg(frame) return frame.args[1] end
+function export.et_parent(frame) return frame:expandTemplate{title = "w1", args = {frame:getParent().args[1], "k"}} end
 function export.reenter(frame)
   local p = frame:getParent()
   local me = "<<" .. dump(p.args) .. ">>"
@@ -228,6 +231,9 @@ STD_MODULES = {
     "ppcall": 'local e = {}\nfunction e.main(frame) local ok, r = pcall(frame.preprocess, frame, "{{" .. (frame.args[1] or "a") .. "}}") return "ok=" .. tostring(ok) end\nreturn e',
     "etcall": 'local e = {}\nfunction e.main(frame) local ok, r = pcall(frame.expandTemplate, frame, {title=frame.args[1] or "a", args={"q"}}) return "ok=" .. tostring(ok) end\nreturn e',
     "nest": 'local e = {}\nfunction e.main(frame) return frame:expandTemplate{title="inv", args={frame.args[1] or "n"}} end\nreturn e',
+    # errors whose text call_lua_sandbox recognises and ignores (the call expands to nothing)
+    "ign1": 'local e = {}\nfunction e.main(frame) error("Translations must be for attested and approved main-namespace terms.") end\nreturn e',
+    "ign2": "local e = {}\nfunction e.main(frame) error(\"attempt to index a nil value (local 'lang') in function 'Module:links.getLinkPage'\") end\nreturn e",
 }
 STD_TEMPLATES = {
     "a": "A[{{{1|}}}]",
@@ -299,8 +305,22 @@ def impl_c14(case, scratch):
     lv = None
     if out.startswith("<<") and out.endswith(">>"):
         lv = undump(out[2:-2])
-    return {"outcome": "ok", "parser": pv, "expander": got[0] if got else None,
-            "lua": lv, "lua_raw": out if lv is None else None, "stack": list(ctx.expand_stack)}
+    res = {"outcome": "ok", "parser": pv, "expander": got[0] if got else None,
+           "lua": lv, "lua_raw": out if lv is None else None, "stack": list(ctx.expand_stack)}
+    if case.get("in_body"):
+        # the same call written in the body of another template
+        ctx.add_page("Template:outerE", 10, "{{t" + src_args + "}}")
+        ctx.add_page("Template:outerL", 10, "{{#invoke:echo|main" + src_args + "}}")
+        got2 = []
+        ctx.start_page("Tt")
+        ctx.expand("{{outerE}}", template_fn=lambda name, ht: got2.append(_keyed(ht)) or ("X" if name == "t" else None)
+                   if name == "t" else None)
+        ctx.start_page("Tt")
+        out2 = ctx.expand("{{outerL}}")
+        res["body_expander"] = got2[0] if got2 else None
+        res["body_lua"] = undump(out2[2:-2]) if out2.startswith("<<") and out2.endswith(">>") else None
+        res["body_lua_raw"] = out2[:200]
+    return res
 
 
 # ---------------------------------------------------------------- C16
@@ -572,6 +592,11 @@ C08_TEMPLATES = {
     # a template whose module calls the same template again, with other arguments, while it is still running
     "re": "{{#invoke:echo|reenter}}",
     "rewrap": "{{re|{{{1}}}|w={{{w|}}}}}",
+    # templates whose module expands, or receives as an argument, a nested invocation that reads the enclosing template's
+    # arguments; used several times on one page with different arguments
+    "ppp": "<{{#invoke:echo|pre_parent}}>",
+    "viaarg": "[{{#invoke:echo|first_arg|{{#invoke:echo|parent}}}}]",
+    "viaet": "({{#invoke:echo|et_parent}})",
     "star": "* item",
 }
 _c08_ctx = None
@@ -627,6 +652,11 @@ def impl_c08(case, scratch):
         got = []
         ex(call, template_fn=lambda n, ht: got.append([n, [[k, ctx._finalize_expand(v)] for k, v in ht.items()]]) and None)
         res["tfn"] = got
+    elif kind == "twice":
+        # the same template several times on one page: every use sees its own arguments
+        calls = ["{{%s|%s}}" % (case["tpl"], a) for a in case["vals"]]
+        res["lua"] = ex(" ".join(calls))
+        res["direct"] = " ".join(ex(c) for c in calls)
     elif kind == "reenter":
         a1, a2, how = case["a1"], case["a2"], case["how"]
         res["lua"] = ex("{{re|go|how=%s|a1=%s|a2=%s}}" % (how, a1, a2))
